@@ -1,0 +1,50 @@
+// Licensed to the Apache Software Foundation (ASF) under one
+// or more contributor license agreements.  See the NOTICE file
+// distributed with this work for additional information
+// regarding copyright ownership.  The ASF licenses this file
+// to you under the Apache License, Version 2.0 (the
+// "License"); you may not use this file except in compliance
+// with the License.  You may obtain a copy of the License at
+//
+//   http://www.apache.org/licenses/LICENSE-2.0
+//
+// Unless required by applicable law or agreed to in writing,
+// software distributed under the License is distributed on an
+// "AS IS" BASIS, WITHOUT WARRANTIES OR CONDITIONS OF ANY
+// KIND, either express or implied.  See the License for the
+// specific language governing permissions and limitations
+// under the License.
+
+//! Seams for external verification harnesses (only with the `verif-hooks` feature).
+//!
+//! Nothing in here changes behaviour unless a harness installs a chooser.
+
+use crate::schema::Name;
+use std::{cell::RefCell, collections::HashMap};
+
+/// Given the number of pending input schemas (sorted by full name), returns the index to parse next.
+pub type PendingChooser = Box<dyn FnMut(usize) -> usize>;
+
+thread_local! {
+    static PENDING_CHOOSER: RefCell<Option<PendingChooser>> = const { RefCell::new(None) };
+}
+
+/// Install (or remove) the chooser for the current thread.
+pub fn set_pending_chooser(chooser: Option<PendingChooser>) {
+    PENDING_CHOOSER.with(|c| *c.borrow_mut() = chooser);
+}
+
+/// Which of the pending input schemas should be parsed next; `None` when no chooser is installed.
+pub(crate) fn pick_pending<V>(pending: &HashMap<Name, V>) -> Option<Name> {
+    PENDING_CHOOSER.with(|c| {
+        let mut guard = c.borrow_mut();
+        let chooser = guard.as_mut()?;
+        let mut names: Vec<&Name> = pending.keys().collect();
+        names.sort_by_key(|n| n.fullname(None));
+        if names.is_empty() {
+            return None;
+        }
+        let index = chooser(names.len()) % names.len();
+        Some(names[index].clone())
+    })
+}
